@@ -94,8 +94,12 @@ pub fn measure_value_offset() -> usize {
     if !alloc::ENABLED {
         return usize::MAX;
     }
+    // same alignment as the payload type => same offset of the value inside the allocation
+    #[repr(align(16))]
+    struct Probe(#[allow(dead_code)] u64);
+    assert_eq!(std::mem::align_of::<Probe>(), std::mem::align_of::<crate::node::Node>());
     let prev = alloc::enter_lib();
-    let rc = cactusref::Rc::new(0u64);
+    let rc = cactusref::Rc::new(Probe(0));
     alloc::restore(prev);
     let (a, s, _) = alloc::last_lib_alloc();
     let p = cactusref::Rc::as_ptr(&rc) as usize;
